@@ -374,3 +374,180 @@ Proof.
     + exact Hy.
 Qed.
 End EquDocs.
+
+Section EquLines.
+Variable spell : N -> text.
+
+Lemma nok_nn e : nok e -> Forall nn_ntok (nprint e).
+Proof.
+  induction e as [n|id|e IH|mn e IH|o a IHa b IHb]; cbn [nok nprint]; intros H.
+  - constructor; [exact H|constructor].
+  - constructor; [exact I|constructor].
+  - constructor; [exact I|]. apply Forall_app. split; [apply IH; exact H|constructor; [exact I|constructor]].
+  - constructor; [exact I|apply IH; apply H].
+  - destruct H as [Ha [Hb _]]. apply Forall_app. split; [apply IHa; exact Ha|constructor; [exact I|apply IHb; exact Hb]].
+Qed.
+
+(* a rendered line assembles to what it denotes, with EQU names in its operands *)
+Lemma assemble_rendered2 cfg ev ls raw res labtab se l t i x :
+  (0 < c_size cfg)%N ->
+  renders_line spell l t ->
+  tables_ok spell (mconf_of cfg) ev ls raw labtab (Z.of_N (c_size cfg)) i -> env_nn ev ->
+  expand_expressions raw (build_graph raw) = Some (Some res) ->
+  instr_meaning (mconf_of cfg) ev ls i l = MI x ->
+  assemble_line cfg (mkC res labtab se) (tline_sline i t) = AOk x.
+Proof.
+  intros Hm [Hlab [Hop [[Ea1 [Ea2 Ea3]] Hb]]] Htab Henv Hres H.
+  set (cf := mconf_of cfg) in *. set (m := Z.of_N (c_size cfg)) in *.
+  unfold instr_meaning in H. cbv zeta in H. change (mf_legacy cf) with (c_mode cfg =? 0)%N in H.
+  set (legacy := (c_mode cfg =? 0)%N) in *.
+  set (dflt := if legacy then match il_op l with DAT => IMMEDIATE | _ => DIRECT end else DIRECT) in *.
+  assert (Hd88 : is88mode dflt = true) by (unfold dflt; destruct legacy, (il_op l); reflexivity).
+  set (am := eff_mode dflt (o_mode (il_a l))).
+  set (bm := match il_b l with Some b => eff_mode dflt (o_mode b) | None => dflt end).
+  change (match o_mode (il_a l) with Some m0 => m0 | None => dflt end) with am in H.
+  change (match il_b l with Some b => match o_mode b with Some m0 => m0 | None => dflt end | None => dflt end) with bm in H.
+  change (if legacy then match il_mod l with Some _ => None | None => implied_modifier_88 (il_op l) am bm end
+          else Some (match il_mod l with Some m0 => m0 | None => default_modifier_94 (il_op l) am bm end))
+    with (md_spec legacy (il_op l) (il_mod l) am bm) in H.
+  destruct (md_spec legacy (il_op l) (il_mod l) am bm) as [md|] eqn:Emd; [|discriminate].
+  assert (Hleg : legacy = true -> il_mod l = None).
+  { intros E. unfold md_spec in Emd. rewrite E in Emd. destruct (il_mod l); [discriminate|reflexivity]. }
+  destruct (value_at cf ev ls i (o_expr (il_a l))) as [av| |] eqn:Eva; try discriminate.
+  destruct (operand_equ spell cf ev ls raw labtab se m i Htab Henv res Hres (length res) _ av (nok_nn _ Ea3) Eva) as [xa [Xa1 Xa2]].
+  rewrite assemble_line_eq. unfold line_dflt. cbn [tline_sline sl_op sl_amode sl_bmode].
+  rewrite (dflt_agrees cfg l t Hop Hleg). fold legacy. fold dflt.
+  rewrite Ea1, mode_of_rendered. fold am.
+  assert (Ebm : exists wb, (match tl_B t with Some (bm0, _) => mode_text bm0 | None => [] end) = mode_text (option_map amode_char wb) /\
+                           bm = eff_mode dflt wb).
+  { unfold bm. destruct (il_b l) as [b|], (tl_B t) as [[bm0 B]|]; try (destruct Hb; fail).
+    - destruct Hb as [Eb1 _]. exists (o_mode b). rewrite Eb1. split; reflexivity.
+    - exists None. split; reflexivity. }
+  destruct Ebm as [wb [Ebm1 Ebm2]]. rewrite Ebm1, mode_of_rendered, <- Ebm2.
+  pose proof (resolve_ok legacy (il_op l) (il_mod l) (tl_op t) (o_mode (il_a l)) wb dflt md Hop Hd88) as R.
+  fold am in R. rewrite <- Ebm2 in R. rewrite (R Emd).
+  unfold line_fields, ev_field. cbn [tline_sline sl_codeline sl_a sl_b]. fold m.
+  rewrite Ea2. unfold expand_fuel. cbn [c_values]. rewrite Xa1, Xa2.
+  rewrite norm_field_mod by lia.
+  destruct (il_b l) as [b|] eqn:Eb, (tl_B t) as [[bm0 B]|] eqn:EB; try (destruct Hb; fail).
+  - destruct Hb as [Eb1 [Eb2 Eb3]].
+    destruct (value_at cf ev ls i (o_expr b)) as [bv| |] eqn:Evb; try discriminate.
+    destruct (operand_equ spell cf ev ls raw labtab se m i Htab Henv res Hres (length res) _ bv (nok_nn _ Eb3) Evb) as [xb [Xb1 Xb2]].
+    rewrite Eb2. destruct (etoks spell (o_expr b)) as [|b0 bs] eqn:Et; [exfalso; exact (etoks_nonempty _ _ Et)|].
+    rewrite Xb1, Xb2. rewrite norm_field_mod by lia. inversion H; subst x. reflexivity.
+  - destruct (il_op l); inversion H; subst x; reflexivity.
+Qed.
+
+(* all the instruction lines of a document *)
+Lemma r2_assemble cfg ev ls raw res labtab se org its es : (0 < c_size cfg)%N -> renders_doc2 spell org its es ->
+  env_nn ev -> expand_expressions raw (build_graph raw) = Some (Some res) ->
+  forall i acc code s,
+  (forall j, i <= j < i + Z.of_nat (length (instrs its)) -> tables_ok spell (mconf_of cfg) ev ls raw labtab (Z.of_N (c_size cfg)) j) ->
+  meaning_code (mconf_of cfg) ev ls i (instrs its) acc = MOk code s ->
+  assemble_all cfg (mkC res labtab se) (elines i es) acc = inr code.
+Proof.
+  intros Hm Hrd Henv Hres. induction Hrd as [|org l its t k es Hl _ IH|org cm k its es _ _ IH|e kw cmt k its es _ _ _ IH|org n e labs kw cmt k its es _ _ _ _ IH];
+    intros i acc code s Htab H; cbn [elines assemble_all instrs] in *.
+  - cbn [meaning_code] in H. inversion H; subst. reflexivity.
+  - cbn [meaning_code] in H. destruct (instr_meaning (mconf_of cfg) ev ls i l) as [x| |] eqn:Ei; try discriminate.
+    cbn [tline_sline sl_typ]. change (mkSL 0 i lineInstruction _ _ _ _ _ _ _ 0) with (tline_sline i t).
+    rewrite (assemble_rendered2 cfg ev ls raw res labtab se l t i x Hm Hl (Htab i ltac:(cbn [length]; lia)) Henv Hres Ei).
+    apply (IH (i + 1) (acc ++ [x]) code s); [|exact H]. intros j Hj. apply Htab. cbn [length]. lia.
+  - cbn [comment_sline sl_typ]. apply (IH i acc code s Htab H).
+  - cbn [dir_sline sl_typ]. apply (IH i acc code s Htab H).
+  - cbn [ldir_sline sl_typ]. apply (IH i acc code s Htab H).
+Qed.
+
+Lemma r2_assertions m c org its es : renders_doc2 spell org its es -> forall C, eval_assertions m c (elines C es) = Some (EOk 1).
+Proof.
+  induction 1 as [|org l its t k es _ _ IH|org cm k its es Hc _ IH|e kw cmt k its es _ _ _ IH|org n e labs kw cmt k its es _ _ _ _ IH]; intros C; cbn [elines eval_assertions]; [reflexivity| | | |].
+  - cbn [tline_sline sl_typ]. apply IH.
+  - cbn [comment_sline sl_typ sl_comment]. unfold comment_plain in Hc. rewrite Hc. apply IH.
+  - cbn [dir_sline sl_typ]. apply IH.
+  - cbn [ldir_sline sl_typ]. apply IH.
+Qed.
+End EquLines.
+
+(* ---------- the whole compiler on such a document ---------- *)
+Lemma env_find_in id (ev : env) d : env_find id ev = Some d -> In id (map fst ev).
+Proof.
+  induction ev as [|[k w] t IH]; [discriminate|]. cbn [env_find map fst].
+  destruct (N.eqb_spec k id); [intros _; left; assumption|intros H; right; apply IH; exact H].
+Qed.
+Lemma env_find_entry id (ev : env) d : env_find id ev = Some d -> In (id, d) ev.
+Proof.
+  induction ev as [|[k w] t IH]; [discriminate|]. cbn [env_find].
+  destruct (N.eqb_spec k id) as [->|]; [intros H; inversion H; left; reflexivity|intros H; right; apply IH; exact H].
+Qed.
+Lemma bg_in all : forall l k refs, g_find k (bg all l) = Some refs -> exists v, In (k, v) l /\ refs = key_refs all v.
+Proof.
+  unfold bg. induction l as [|[k0 v0] l IH]; intros k refs H; cbn [flat_map fst snd] in H; [discriminate|]. destruct v0 as [|t0 v0'].
+  - cbn [app] in H. destruct (IH k refs H) as [v [A B]]. exists v. split; [right; exact A|exact B].
+  - cbn [app g_find] in H. destruct (text_eqb k k0) eqn:E.
+    + apply text_eqb_eq in E. subst k0. inversion H; subst. eexists. split; [left; reflexivity|reflexivity].
+    + destruct (IH k refs H) as [v [A B]]. exists v. split; [right; exact A|exact B].
+Qed.
+Lemma key_refs_sub values toks r : In r (key_refs values toks) ->
+  exists t, In t toks /\ t_typ t = tokText /\ t_val t = r /\ sym_has r values = true.
+Proof.
+  rewrite key_refs_fold.
+  assert (G : forall toks acc, In r (fold_left (key_step values) toks acc) ->
+              In r acc \/ exists t, In t toks /\ t_typ t = tokText /\ t_val t = r /\ sym_has r values = true).
+  { induction toks0 as [|t ts IH]; intros acc H; [left; exact H|]. cbn [fold_left] in H. destruct (IH _ H) as [Ha|[t1 [A B]]].
+    - unfold key_step in Ha. destruct (t_typ t) eqn:Et; try (left; exact Ha).
+      destruct (sym_has (t_val t) values && negb (mem_text (t_val t) acc)) eqn:Ec; [|left; exact Ha].
+      apply in_app_or in Ha. destruct Ha as [Ha|[<-|[]]]; [left; exact Ha|]. right. exists t. apply andb_prop in Ec.
+      split; [left; reflexivity|]. split; [exact Et|]. split; [reflexivity|apply Ec].
+    - right. exists t1. split; [right; exact A|exact B]. }
+  intros H. destruct (G toks [] H) as [[]|X]. exact X.
+Qed.
+Lemma etoks_text' spell e t : In t (etoks spell e) -> t_typ t = tokText -> exists id, In id (names e) /\ t_val t = spell id.
+Proof.
+  unfold etoks. induction e as [n|id|e IH|mn e IH|o a IHa b IHb]; cbn [nprint map names In]; intros Hin Ht.
+  - destruct Hin as [<-|[]]. discriminate Ht.
+  - destruct Hin as [<-|[]]. exists id. split; [left; reflexivity|reflexivity].
+  - destruct Hin as [<-|Hin]; [discriminate Ht|]. rewrite map_app in Hin. apply in_app_or in Hin.
+    destruct Hin as [Hin|[<-|[]]]; [apply IH; assumption|discriminate Ht].
+  - destruct Hin as [<-|Hin]; [destruct mn; discriminate Ht|apply IH; assumption].
+  - rewrite map_app in Hin. apply in_app_or in Hin. destruct Hin as [Hin|[<-|Hin]].
+    + destruct (IHa Hin Ht) as [id [H1 H2]]. exists id. split; [apply in_or_app; left; exact H1|exact H2].
+    + destruct o; discriminate Ht.
+    + destruct (IHb Hin Ht) as [id [H1 H2]]. exists id. split; [apply in_or_app; right; exact H1|exact H2].
+Qed.
+
+Section EquWhole.
+Variable spell : N -> text.
+
+Lemma tables_hold cfg ev ls i :
+  spell_ok spell (map fst ls ++ map fst ev) ->
+  (forall id a, lab_find' id ls = Some a -> Z.abs (a - i) < Z.of_N (c_size cfg)) ->
+  tables_ok spell (mconf_of cfg) ev ls (raw_table spell cfg ev) (set_all (spell_pairs spell ls) []) (Z.of_N (c_size cfg)) i.
+Proof.
+  intros [[P1 [P2 [P3 P4]]] Hlab Hinj Hnd _] Hrange id. unfold raw_table.
+  destruct (constants_lookup cfg) as [C1 [C2 [C3 C4]]].
+  unfold predefined_value. cbn [mconf_of mf_M mf_len mf_procs mf_dist].
+  destruct (N.eqb_spec id ID_CORESIZE) as [->|N1]; [split; [lia|rewrite sym_find_app, P1, C1, N2Z.id; reflexivity]|].
+  destruct (N.eqb_spec id ID_MAXLENGTH) as [->|N2]; [split; [lia|rewrite sym_find_app, P2, C2, N2Z.id; reflexivity]|].
+  destruct (N.eqb_spec id ID_MAXPROCESSES) as [->|N3]; [split; [lia|rewrite sym_find_app, P3, C3, N2Z.id; reflexivity]|].
+  destruct (N.eqb_spec id ID_MINDISTANCE) as [->|N4]; [split; [lia|rewrite sym_find_app, P4, C4, N2Z.id; reflexivity]|].
+  assert (Hent : In id (map fst ls ++ map fst ev) ->
+                 sym_find (spell id) (load_constants cfg ++ equ_entries spell ev) =
+                 match env_find id ev with Some d => Some (etoks spell d) | None => None end).
+  { intros Hin. rewrite sym_find_app. rewrite (constants_none cfg _ (proj2 (Hlab id Hin))).
+    apply sym_find_entries. intros a b Ha Hb. apply Hinj.
+    - destruct Ha as [<-|Ha]; [exact Hin|apply in_or_app; right; exact Ha].
+    - destruct Hb as [<-|Hb]; [exact Hin|apply in_or_app; right; exact Hb]. }
+  destruct (env_find id ev) as [d|] eqn:Ee.
+  - rewrite Hent by (apply in_or_app; right; apply (env_find_in id ev d Ee)). reflexivity.
+  - destruct (lab_find' id ls) as [a|] eqn:Ea; [|exact I].
+    pose proof (lab_find'_in _ _ _ Ea) as Hin.
+    rewrite Hent by (apply in_or_app; left; exact Hin). split; [reflexivity|]. split.
+    + rewrite set_all_find.
+      * rewrite (assoc_spelled spell id ls); [rewrite Ea; reflexivity|].
+        intros x y Hx Hy. apply Hinj; [destruct Hx as [<-|Hx]|destruct Hy as [<-|Hy]]; apply in_or_app; left; assumption.
+      * unfold spell_pairs. rewrite map_map. cbn [fst]. rewrite <- (map_map fst spell). apply NoDup_map_spell.
+        -- apply (nodup_app_l _ _ _ Hnd).
+        -- intros x y Hx Hy. apply Hinj; apply in_or_app; left; assumption.
+    + apply rem_small_abs. apply (Hrange id a Ea).
+Qed.
+End EquWhole.
